@@ -54,7 +54,10 @@ def _i32_const(inst):
 
     def fn():
         buf = ShimBuf()
-        W.Instruction(W.opcodes["i32.const"], (SymNum(v),)).WriteTo(buf)
+        # the instruction is built where the generator builds it: _GenerateConstant on an integer constant of the IR
+        from nsl import LinearIR
+        from nsl.passes import GenerateWasm
+        GenerateWasm._GenerateConstant(LinearIR.ConstantValue(LinearIR.IntegerType(), SymNum(v))).WriteTo(buf)
         r = wasmref.Reader(buf.data)
         op = r.cbyte()
         d = r.sleb(32)
@@ -259,8 +262,9 @@ PARTS = {"pack-unsigned": _pack_unsigned, "i32.const": _i32_const, "name-symboli
          "name-concrete": _name_concrete, "framing": _framing, "ceil-lemma": _ceil_lemma}
 
 
+
 def run_instance(inst):
-    r = PARTS[inst["part"]](inst)
+    r = (_history if inst["part"] == "history" else PARTS[inst["part"]])(inst)
     r["sample"] = {k: v for k, v in inst.items()}
     r["key"] = repr(sorted(inst.items()))
     r["funcs"] = FUNCS.get(inst["part"], [])
@@ -281,6 +285,55 @@ FUNCS = {
 }
 
 
+def _history(inst):
+    """concrete gate: the packers called in a realistic order within ONE process -- every boundary value first as a count / size /
+    index (unsigned) and then as an i32.const immediate (signed), and a second set in the opposite order; each byte string must
+    decode to the value under the reader the format prescribes at that place"""
+    import io as _io
+    from nsl import WebAssembly as W, LinearIR
+    from nsl.passes import GenerateWasm
+    res = dict(paths=0, queries=0, unsat=0, sat=0, violations=[], errors=[], nontrivial=True)
+    vals = sorted({0, 1, 2, 63, 64, 65, 66, 100, 127, 128, 129, 255, 256, 8191, 8192, 8193, 16383, 16384, 1048575, 1048576, 2097151, 2097152,
+                   134217727, 134217728, 268435455, 268435456, 2 ** 31 - 1})
+    bad = []
+
+    def unsigned(v):
+        bs = list(W.PackInteger(v))
+        r = wasmref.Reader(bs)
+        d = r.uleb(32)
+        return None if (d == v and r.eof()) else dict(kind="unsigned", v=v, bytes=bs, decoded=d)
+
+    def signed(v):
+        buf = _io.BytesIO()
+        GenerateWasm._GenerateConstant(LinearIR.ConstantValue(LinearIR.IntegerType(), v)).WriteTo(buf)
+        bs = list(buf.getvalue())
+        r = wasmref.Reader(bs)
+        try:
+            op = r.cbyte()
+            d = r.sleb(32)
+            ok = op == 0x41 and d == v and r.eof()
+        except wasmref.Malformed as e:
+            d, ok = str(e), False
+        return None if ok else dict(kind="i32.const", v=v, bytes=bs, decoded=d)
+    with shims.no_wasm_shims():
+        for k, v in enumerate(vals):
+            order = (unsigned, signed) if k % 2 == 0 else (signed, unsigned)
+            for f in order:
+                res["paths"] += 1
+                b = f(v)
+                if b:
+                    b["order"] = "unsigned use first" if order[0] is unsigned else "i32.const first"
+                    bad.append(b)
+        for v in (-1, -2, -63, -64, -65, -128, -8192, -8193, -1048577, -2 ** 31):
+            res["paths"] += 1
+            b = signed(v)
+            if b:
+                bad.append(b)
+    for b in bad[:4]:
+        res["violations"].append(dict(what=f"an integer written earlier in the same process changes what is written now: {b}", replay=dict(harness="C19", inst=dict(part="history"))))
+    return res
+
+
 def instances(tier):
     out = []
     # the 32-bit range is split into sub-ranges only to spread work over processes; together they cover it
@@ -297,6 +350,7 @@ def instances(tier):
     for shape in _SHAPE_VARS:
         out.append(dict(part="framing", shape=shape))
     out.append(dict(part="ceil-lemma"))
+    out.append(dict(part="history"))
     return out
 
 
@@ -308,6 +362,9 @@ def replay(spec):
     part = spec.get("part") or spec["inst"]["part"]
     inp = spec.get("inputs", {})
     try:
+        if part == "history":
+            r = _history(spec["inst"])
+            return dict(violations=[v["what"] for v in r["violations"]][:2]) if r["violations"] else None
         if part == "pack-unsigned":
             v = inp["v"]
             bs = list(W.PackInteger(v))
@@ -319,7 +376,9 @@ def replay(spec):
         if part == "i32.const":
             v = inp["v"]
             buf = io.BytesIO()
-            W.Instruction(W.opcodes["i32.const"], (v,)).WriteTo(buf)
+            from nsl import LinearIR
+            from nsl.passes import GenerateWasm
+            GenerateWasm._GenerateConstant(LinearIR.ConstantValue(LinearIR.IntegerType(), v)).WriteTo(buf)
             bs = list(buf.getvalue())
             r = wasmref.Reader(bs)
             op = r.cbyte()
